@@ -279,3 +279,70 @@ Proof.
   rewrite !map_app, !combine_fst, !combine_snd by assumption. split; [|reflexivity].
   apply split4.
 Qed.
+
+(* ------------------------------------------------------------------ *)
+(** * descriptor bookkeeping of [receive_listeners] *)
+
+Lemma combine_len_le {A B} : forall (a : list A) (b : list B), length a <= length b -> length (combine a b) = length a.
+Proof. intros a b L. rewrite combine_length. lia. Qed.
+
+Lemma combine_snd_firstn {A B} : forall (a : list A) (b : list B),
+  length a <= length b -> map snd (combine a b) = firstn (length a) b.
+Proof.
+  induction a as [|x a IH]; intros [|y b] L; cbn in *; try reflexivity; try lia.
+  f_equal. apply IH. lia.
+Qed.
+
+Lemma firstn_add {A} a b : forall l : list A, firstn (a + b) l = firstn a l ++ firstn b (skipn a l).
+Proof.
+  induction a as [|a IH]; intros l; [reflexivity|].
+  destruct l as [|x l]; cbn [Nat.add firstn skipn app]; [rewrite firstn_nil; reflexivity|].
+  rewrite IH. reflexivity.
+Qed.
+
+Lemma pair_up_held (l : listeners (list N)) (fds : list nat) :
+  count l <= length fds ->
+  let g := pair_up l fds in
+  map snd (http g ++ tls g ++ tcp g ++ udp g) = firstn (count l) fds /\
+  length (http g) + length (tls g) + length (tcp g) + length (udp g) = count l.
+Proof.
+  destruct l as [h t c u]. unfold pair_up, count. cbn [http tls tcp udp]. intros L.
+  set (nh := length h) in *. set (nt := length t) in *. set (nc := length c) in *. set (nu := length u) in *.
+  assert (L1 : length h <= length (firstn nh fds)) by (rewrite firstn_length; unfold nh in *; lia).
+  assert (L2 : length t <= length (firstn nt (skipn nh fds))) by (rewrite firstn_length, skipn_length; unfold nt in *; lia).
+  assert (L3 : length c <= length (firstn nc (skipn (nh + nt) fds))) by (rewrite firstn_length, skipn_length; unfold nc in *; lia).
+  assert (L4 : length u <= length (skipn (nh + nt + nc) fds)) by (rewrite skipn_length; unfold nu in *; lia).
+  split.
+  - rewrite !map_app, !combine_snd_firstn by assumption.
+    fold nh nt nc nu.
+    rewrite !firstn_firstn, !Nat.min_id.
+    rewrite (firstn_add (nh + nt + nc) nu), (firstn_add (nh + nt) nc), (firstn_add nh nt).
+    rewrite <- !app_assoc. reflexivity.
+  - rewrite !combine_len_le by assumption. reflexivity.
+Qed.
+
+(** every descriptor [receive_listeners] was given is either handed to the
+    caller or closed by the call itself — for EVERY message and descriptor list *)
+Lemma receive_conserves_lemma msg fds r closed :
+  receive_acct msg fds = (r, closed) -> held_after r ++ closed = fds.
+Proof.
+  unfold receive_acct. destruct (receive msg fds) as [g|e] eqn:R; intros H; inversion H; subst; clear H;
+    [|reflexivity].
+  unfold receive in R.
+  destruct (max_fds_out <? length fds); [discriminate|].
+  destruct (varint_decode 10 (firstn max_bytes_out msg)) as [[len rest]|]; [|discriminate].
+  destruct (length rest <? len); [discriminate|].
+  destruct (decode_fields (S len) (firstn len rest) (mkl [] [] [] [])) as [l|]; [|discriminate].
+  destruct ((max_fds_out <? count l) || (length fds <? count l)) eqn:C; [discriminate|].
+  apply orb_false_iff in C. destruct C as [_ C]. apply Nat.ltb_ge in C.
+  inversion R; subst; clear R.
+  destruct (pair_up_held l fds C) as [A B]. cbn zeta in A, B.
+  unfold held_after. rewrite A, B. apply firstn_skipn.
+Qed.
+
+Lemma failed_receive_lemma msg fds e closed :
+  receive_acct msg fds = (RErr e, closed) ->
+  held_after (RErr e : rres (listeners (list N * nat))) = [] /\ closed = fds.
+Proof.
+  intros H. pose proof (receive_conserves_lemma _ _ _ _ H) as C. cbn in C. split; [reflexivity|exact C].
+Qed.
